@@ -88,7 +88,7 @@ from vgi_rpc.rpc._wire import (
     _write_result_batch,
     _write_stream_header,
 )
-from vgi_rpc.shm import ShmSegment, resolve_shm_batch
+from vgi_rpc.shm import ShmSegment, is_shm_pointer_batch, resolve_shm_batch
 from vgi_rpc.transport_options import (
     TRANSPORT_OPTIONS_METHOD_NAME,
     worker_transport_metadata,
@@ -957,7 +957,7 @@ class RpcServer:
                 except ProtocolVersionError as exc:
                     err_schema = info.result_schema if info.method_type == MethodType.UNARY else _EMPTY_SCHEMA
                     _write_error_stream(transport.writer, err_schema, exc, server_id=self._server_id)
-                    self._discard_rejected_stream_input(transport, info)
+                    self._discard_rejected_stream_input(transport, info, shm=static_shm or cached_shm)
                     return
 
             # Request validation. Both steps are answered with a typed error
@@ -981,7 +981,7 @@ class RpcServer:
             except Exception as exc:
                 err_schema = info.result_schema if info.method_type == MethodType.UNARY else _EMPTY_SCHEMA
                 _write_error_stream(transport.writer, err_schema, exc, server_id=self._server_id)
-                self._discard_rejected_stream_input(transport, info)
+                self._discard_rejected_stream_input(transport, info, shm=static_shm or cached_shm)
                 return
 
             # Determine the SHM segment for this call's data plane (resolving
@@ -1025,7 +1025,9 @@ class RpcServer:
             _current_call_stats.reset(stats_token)
             _current_request_id.reset(token)
 
-    def _discard_rejected_stream_input(self, transport: RpcTransport, info: RpcMethodInfo) -> None:
+    def _discard_rejected_stream_input(
+        self, transport: RpcTransport, info: RpcMethodInfo, *, shm: ShmSegment | None = None
+    ) -> None:
         """Consume the input stream that follows a rejected header-less stream request.
 
         A client of a stream method without a header learns about an
@@ -1035,11 +1037,29 @@ class RpcServer:
         *request* and every later response on the connection would be
         shifted by one.  Header-declaring streams report the failure in
         place of the header, before any input stream exists.
+
+        An input the client routed through shared memory arrives as a
+        pointer batch; its region was allocated for this server to consume,
+        so it is freed here even though the batch itself is never read.
+        Without *shm* the stream is only drained.
         """
         if info.method_type != MethodType.STREAM or info.header_type is not None:
             return
         with contextlib.suppress(pa.ArrowInvalid, OSError, StopIteration):
-            _drain_stream(ValidatedReader(ipc.open_stream(transport.reader), self._ipc_validation))
+            reader = ValidatedReader(ipc.open_stream(transport.reader), self._ipc_validation)
+            if shm is None:
+                _drain_stream(reader)
+                return
+            while True:
+                batch, custom_metadata = reader.read_next_batch_with_custom_metadata()
+                if not is_shm_pointer_batch(batch, custom_metadata) or custom_metadata is None:
+                    continue
+                offset_bytes = custom_metadata.get(SHM_OFFSET_KEY)
+                if offset_bytes is None:
+                    continue
+                # A malformed or already-freed offset is the peer's problem, not a reason to stop draining.
+                with contextlib.suppress(ValueError):
+                    shm.free(int(offset_bytes))
 
     def _prepare_method_call(
         self, info: RpcMethodInfo, kwargs: dict[str, object]
@@ -1186,7 +1206,7 @@ class RpcServer:
             error_message = str(exc)
             with contextlib.suppress(BrokenPipeError, OSError):
                 _write_error_stream(transport.writer, _EMPTY_SCHEMA, exc, server_id=self._server_id)
-            self._discard_rejected_stream_input(transport, info)
+            self._discard_rejected_stream_input(transport, info, shm=shm)
             return
         finally:
             if status == "error":
@@ -1273,7 +1293,14 @@ class RpcServer:
                         # Resolve SHM pointer on input batch
                         input_batch, resolved_cm, release_fn = resolve_shm_batch(input_batch, resolved_cm, shm)
 
-                        input_batch = _coerce_input_batch(input_batch, input_schema)
+                        try:
+                            input_batch = _coerce_input_batch(input_batch, input_schema)
+                        except Exception:
+                            # The rejected input never becomes ``prev_input``, so
+                            # nothing else would free the region it arrived in.
+                            if release_fn is not None:
+                                release_fn()
+                            raise
 
                         ab_in = AnnotatedBatch(batch=input_batch, custom_metadata=resolved_cm, _release_fn=release_fn)
                         if prev_input is not None:
